@@ -435,11 +435,19 @@ theorem contribRows_singles (i : Nat) (m : ℚ) (l : List (Item ℚ)) (h : ∀ x
     simp only [List.map_cons, contribRows_cons, contrib, rateOf_cons,
       ih fun x hx => h x (List.mem_cons_of_mem _ hx), h a List.mem_cons_self]
 
-theorem build_rat (rates : List ℚ) (hne : rates ≠ []) (h0 : ∀ r ∈ rates, 0 ≤ r) (hpos : 0 < rates.sum) :
-    ∃ t, build Ops.rat rates = .ok t ∧ BuildSpec rates t := by
-  obtain ⟨r, rs, rfl⟩ := List.exists_cons_of_ne_nil hne
-  generalize hR : r :: rs = rates at *
-  have hlen : 0 < rates.length := by rw [← hR]; simp
+/-- **left-overs are exact**: when the pairing loop stops (one stack is empty), every item still on a stack
+has rate exactly the mean rate — so the two `assert 1-1e-6 < rate/mean < 1+1e-6` hold with `rate/mean = 1` -/
+theorem leftovers_exact (rates : List ℚ) (hne : rates ≠ []) (h0 : ∀ r ∈ rates, 0 ≤ r) (hpos : 0 < rates.sum) :
+    let m := rates.sum / rates.length
+    let out := pairLoop m rates.length (smallOf m (mkItems 0 rates)) (largeOf m (mkItems 0 rates))
+    (out.2.1 = [] ∨ out.2.2 = []) ∧ (∀ x ∈ out.2.1, x.rate = m) ∧ (∀ x ∈ out.2.2, x.rate = m) := by
+  intro m' out'
+  have hm'' : m' = rates.sum / rates.length := rfl
+  have hout'' : out' = pairLoop m' rates.length (smallOf m' (mkItems 0 rates)) (largeOf m' (mkItems 0 rates)) := rfl
+  clear_value m' out'
+  subst hm''
+  subst hout''
+  have hlen : 0 < rates.length := List.length_pos_iff.mpr hne
   have hnpos : (0:ℚ) < rates.length := by exact_mod_cast hlen
   set m : ℚ := rates.sum / rates.length with hm
   have hmpos : 0 < m := div_pos hpos hnpos
@@ -472,6 +480,26 @@ theorem build_rat (rates : List ℚ) (hne : rates ≠ []) (h0 : ∀ r ∈ rates,
       rw [hL] at hrem
       simp only [sumRates_nil, List.length_nil, Nat.cast_zero, add_zero] at hrem
       exact all_eq_of_sum_le m _ (fun x hx => (hinv.1 x hx).2) hrem
+  exact ⟨hdone, hboth⟩
+
+theorem build_rat (rates : List ℚ) (hne : rates ≠ []) (h0 : ∀ r ∈ rates, 0 ≤ r) (hpos : 0 < rates.sum) :
+    ∃ t, build Ops.rat rates = .ok t ∧ BuildSpec rates t := by
+  obtain ⟨r, rs, rfl⟩ := List.exists_cons_of_ne_nil hne
+  generalize hR : r :: rs = rates at *
+  have hlen : 0 < rates.length := by rw [← hR]; simp
+  have hnpos : (0:ℚ) < rates.length := by exact_mod_cast hlen
+  set m : ℚ := rates.sum / rates.length with hm
+  have hmpos : 0 < m := div_pos hpos hnpos
+  set items := mkItems 0 rates with hitems
+  set out := pairLoop m rates.length (smallOf m items) (largeOf m items) with hout
+  have hitems0 : ∀ it ∈ items, 0 ≤ it.rate := fun it hit => h0 _ (mkItems_mem 0 rates it hit)
+  have hinv0 := split_inv m items hitems0
+  have hlen0 : (smallOf m items).length + (largeOf m items).length = rates.length := by
+    rw [split_length, hitems, mkItems_length]
+  have hl := pairLoop_len m rates.length (smallOf m items) (largeOf m items)
+  rw [← hout, hlen0] at hl
+  obtain ⟨-, hboth1, hboth2⟩ := leftovers_exact rates hne h0 hpos
+  have hboth : (∀ x ∈ out.2.1, x.rate = m) ∧ (∀ x ∈ out.2.2, x.rate = m) := ⟨hboth1, hboth2⟩
   have hall : (rates.all fun r => decide (((0:ℤ):ℚ) ≤ r)) = true := by
     simp only [List.all_eq_true, decide_eq_true_eq, Int.cast_zero]; exact h0
   have hb : build Ops.rat rates = .ok ⟨rates.sum, m, out.1 ++ (out.2.1.map fun it => Row.single ⟨it.item, m⟩)
